@@ -1195,9 +1195,9 @@ def _run(rep, rng, tier, seed, build, mutant, kinds, maxlen, scratch):
     plan, stats = {}, []
     for kind in kinds:
         g = graphs[kind]
-        budget = (len(g.edges) + 60) if quick else 1200      # the edge cover is never cut; trajectories are sampled
+        budget = (len(g.edges) + 60) if quick else 800       # the edge cover is never cut; trajectories are sampled
         paths, st = choose_paths(g, maxlen, budget, rng)
-        variants = 0 if quick else 4
+        variants = 0 if quick else 2
         extra = []
         for _ in range(variants):
             more, _ = choose_paths(g, maxlen, budget // 2, rng)
@@ -1210,7 +1210,7 @@ def _run(rep, rng, tier, seed, build, mutant, kinds, maxlen, scratch):
             if m in g.methods and want != have:
                 rep.machinery("Touches(%s,%s) in Lifecycle.tla is %s but the harness passes %s"
                               % (kind, m, sorted(want), sorted(have)))
-        walks = random_walks(g, maxlen, 10 if quick else 300, rng)
+        walks = random_walks(g, maxlen, 10 if quick else 200, rng)
         seen = set(map(tuple, paths))
         for p in extra + walks:
             if tuple(p) not in seen:
@@ -1298,7 +1298,7 @@ def _run(rep, rng, tier, seed, build, mutant, kinds, maxlen, scratch):
     rep.cov["rule"] = ("one replay per (abstract state, method) pair explored by TLC (edge cover of the dumped graph), "
                        "per distinct trajectory of abstract states (%s; counts under coverage.graph) and seeded "
                        "random call sequences; every call is made twice; distinct = distinct (kind, call sequence)"
-                       % ("up to 60 per kind, 1 labelling" if quick else "up to 1200 per kind, 5 labellings"))
+                       % ("up to 60 per kind, 1 labelling" if quick else "up to 800 per kind, 3 labellings"))
     rep.cov["exhaustive"] = False
     rep.assumptions += [
         "evaluation calls only; redefinitions between calls are outside the property",
